@@ -34,10 +34,17 @@ func s2RunSteps(c *fw.Case, prop string, p *engine.Profile, steps []engine.Step)
 		return nil
 	}
 	defer w.Close()
-	r := c.Rng.Fork("delay")
+	r := &lockedRng{r: c.Rng.Fork("delay")}
 	mode := c.Rng.Intn(3)
-	if mode > 0 {
+	if mode > 0 || p.PSlowPlugin > 0 {
 		w.Delay = func(kind string) {
+			if kind == "plugin.Validate" && p.PSlowPlugin > 0 && r.Intn(100) < p.PSlowPlugin {
+				time.Sleep(time.Duration(5+r.Intn(35)) * time.Millisecond)
+				return
+			}
+			if mode == 0 {
+				return
+			}
 			// schedule perturbation at decorated calls: a short sleep with probability 10% / 20%
 			x := r.Intn(1000)
 			if x < 100*mode {
@@ -274,4 +281,16 @@ func init() {
 // s2RunAll reports every finding regardless of property (development aid)
 func s2RunAll(c *fw.Case, p *engine.Profile) *engine.Exec {
 	return s2Run(c, "*", p)
+}
+
+// lockedRng is a PRNG stream shared by the goroutines of the system under test (delay injection)
+type lockedRng struct {
+	mu sync.Mutex
+	r  *fw.Rng
+}
+
+func (l *lockedRng) Intn(n int) int {
+	l.mu.Lock()
+	defer l.mu.Unlock()
+	return l.r.Intn(n)
 }
